@@ -136,7 +136,7 @@ def _reducer_runs(chk, tier, select, faults):
         for workers, K, sp in grid:
             jobs.append(dict(key="reducer", params=dict(mode=mode, workers=workers, K=K, faults=faults, spurious=sp, select=list(select), known=known), label=f"{mode}/workers={workers}/K={K}/faults={faults}/spurious={sp}", time_limit=1500 if tier == "quick" else 7200, flags=dict(loop_budget=60), tag=f"{mode}/{workers}"))
     # a second call on the same MultiprocessingSolver object (whatever the first call left on the object must not matter)
-    for prior, mode in (("solve", "solve"), ("minimize", "maximize"), ("solve", "minimize")):
+    for prior, mode in (("solve", "solve"), ("minimize", "maximize"), ("solve", "minimize"), ("solve_abandoned", "solve"), ("solve_abandoned", "minimize")):
         workers, K, sp = (2, 1, 1)
         jobs.append(dict(key="reducer", params=dict(mode=mode, workers=workers, K=K, faults=faults, spurious=sp, select=list(select), known=known, prior=prior), label=f"{prior}-then-{mode}/workers={workers}/K={K}/faults={faults}/spurious={sp}", time_limit=1500 if tier == "quick" else 7200, flags=dict(loop_budget=60), tag=f"{prior}-then-{mode}/{workers}"))
     for job, r in zip(jobs, chk.explore_many(jobs)):
@@ -412,7 +412,7 @@ def c08(tier, seed, only):
             continue
         jobs.append(dict(key="lemma_mono", params=dict(cfg=cfg), label=f"mono/{cfg['alg']}/n={cfg['n']}/{cfg['params']}"))
     # layer 2: queue-invariant step of the real loop
-    step_models = ["lt", "geq_leq", "alldiff_lt", "max_leq_min_geq", "queens_like", "shared_offset_lt", "shared_twice", "magic_like", "circuit3", "circuit3_twice", "and_true", "sum_eq"]
+    step_models = ["lt", "geq_leq", "alldiff_lt", "max_leq_min_geq", "queens_like", "shared_offset_lt", "shared_twice", "magic_like", "circuit3", "circuit3_twice", "and_true", "sum_eq", "circuit3_alias", "shared_twice_rev", "same_var_twice", "config3"]
     for name in step_models:
         if only and name not in only:
             continue
@@ -425,6 +425,8 @@ def c08(tier, seed, only):
     runs = solvefam.plan(tier, seed, models=only, extra_default=True)
     if tier == "quick":
         runs = [r for r in runs if not r[1] or r[1].get("cons") == "shaving" or r[1].get("decision")][: 2 * len(h_solve.MODELS)]
+    if tier == "quick" and (not only or "circuit3_alias" in only):
+        runs.append(solvefam.ALIAS_RUN)  # the model is in the thorough plan; this one run (decisions on the table first) also in quick
     batch = solvefam.run_plan(chk, ["C08"], runs)
     chk.functions.update(["get_triggers_* of the narrow-mask constraints", "bound_consistency_algorithm (one iteration, cut at the second pop_propagator)"])
     chk.stubs += ["pop_propagator cut at its second call (isolates one iteration of the real loop body)"]
@@ -510,7 +512,7 @@ def c13(tier, seed, only):
         chk.require(job["name"], r.acc.counts.get("init-ok", 0) > 0 or any(k.startswith("violation") for k in r.acc.counts), "init never completed")
     # twin micro-models: both formulations are compared with the same semantic set (C02's exactly-once + complete query)
     d = solvefam.Deferred(chk)
-    twin_models = sorted({m for pair in TWINS.values() for m in pair} | {"lt_swapped"})
+    twin_models = sorted({m for pair in TWINS.values() for m in pair} | {"lt_swapped", "shared_twice_rev", "shared_twice_eq_rev", "abs_diff"})
     for name in twin_models:
         if only and name not in only:
             continue
@@ -652,6 +654,16 @@ def c15(tier, seed, only):
     rs = chk.explore_many(jobs)
     for r in rs[n_ties:n_hist]:
         batch.extend(r.acc.validate[:12])
+    # earlier use of ONE MultiprocessingSolver object (a completed call, an enumeration the caller walked away from) must not change
+    # what the next call on it returns: the reducer against the scheduler model, the queue OBJECT keeps what nobody read
+    from nusym import h_mp  # noqa
+
+    if not only or "reducer" in only:
+        pj = [dict(key="reducer", params=dict(mode=mode_, workers=2, K=1, faults=False, spurious=1, select=["C11"], known=[], prior=prior_), label=f"history/{prior_}-then-{mode_} on one MultiprocessingSolver object", time_limit=1500, flags=dict(loop_budget=60)) for prior_, mode_ in (("solve_abandoned", "solve"), ("solve_abandoned", "minimize"), ("solve", "solve"), ("minimize", "maximize"))]
+        for r_ in chk.explore_many(pj):
+            for v_ in r_.new_violations:
+                v_["query_family"], v_["prop"] = v_.get("prop"), "C15"
+        chk.functions.update(["nucs.solvers.multiprocessing_solver.MultiprocessingSolver.__init__/solve/optimize"])
     d = solvefam.Deferred(chk).add(["C15"], [(n, {}) for n in models])
     d.add(["C15"], [(n, {}) for n in ("alldiff3", "circuit3", "gcc", "queens_like")], flags_extra=hz_flags)
     batch += d.run()
